@@ -216,6 +216,12 @@ func C19(c *core.Ctx) {
 	c.Set("rule", "scenario = random journal split over an include tree of 1-7 files (sub-directories, ../ paths) x command (check, balance, balance -v, print, transcode -v: 1-6 pipeline stages) x fault variant (none, syntax error / invalid account type / missing include in one file, unopened account (check stage fails), missing price (valuation stage fails)) x schedule-perturbation seed x GOMAXPROCS in {1,2,16}, on the -race binary with the verif hooks; non-trivial = the trace shows >= 2 stages active at once (interleaved StageDay events) or >= 2 files in flight at once")
 	c.Trusted("Go race detector as observer of unordered memory accesses", "verif hooks (Emit under a mutex with a global sequence number; StageDay emitted by the stage that owns the Day)", "TLC + Json module")
 	c.MC("Pipeline", c.TierCfg("MC_Pipeline"), 16, 30*time.Minute)
+	if core.Thorough(c) {
+		c.MC("Pipeline", "MC_Pipeline_quick.cfg", 16, 30*time.Minute) // 3 x 3 with two failing (stage, item) pairs
+	}
+	if r := c.TLC(core.TLCOpts{Spec: "Pipeline", Cfg: "MC_Pipeline_hazard.cfg", Workers: 4, Timeout: 5 * time.Minute}); r.Violated != "ErrorIsReal" {
+		c.Infra("MC_Pipeline_hazard: cancelling before the error is recorded was expected to violate ErrorIsReal in the model, got %q", r.Violated)
+	}
 	c.MC("Loader", c.TierCfg("MC_Loader"), 16, 30*time.Minute)
 	// Ledger x pipeline discipline: every interleaving of the six balance stages over the days of a
 	// small valued journal ends with the sequential result (report, stage states, failure flag)
